@@ -18,9 +18,12 @@ then the real resolve functions), judged by `judge-c16-*`.
 History: before fix d71238c (`ParseNumber` rejects values above 2^32-1) the full statements were
 false — `FETCH 4294967297` selected message 1, `FETCH 4294967296` panicked.  The raw resolve
 functions still behave like that on out-of-range `SeqNum`s (`raw_resolve_truncates`,
-`raw_resolve_panics` below); `parser_range` shows such values no longer reach them.
+`raw_resolve_panics` below); `parser_range` shows such values no longer reach them.  Before fix
+5288904 (`snapshot.getMessagesInRange` removes repetitions) `COPY 1,1` failed with NO
+(`overlapping_items_selected_once`).
 -/
 import GluonModel.Lemmas.SeqSetSearch
+import GluonModel.Generated.Facts.MsgSet
 
 namespace Gluon.C16
 
@@ -63,35 +66,50 @@ theorem seqset_spec (s : Snap) (set : List SeqRange) (hl : s.length < 4294967296
   rw [getMessagesInSeqRange_eq]
   exact seqSet_spec s set hl hr
 
-/-- **Sequence sets, whole pipeline, all magnitudes** — for every RFC sequence set `S` (numbers
-    unbounded) and every view: if RFC 3501 selects messages, the command works on exactly those; if
-    RFC 3501 demands BAD (a number beyond the count, `*` on an empty mailbox) the command fails —
-    with a parse error when a number does not fit into 32 bits, with ErrNoSuchMessage otherwise. -/
-theorem text_seqset_spec (s : Snap) (S : SSet) (hS : RFCSet S) (hl : s.length < 4294967296) :
-    match selectSeq s.uids S with
-    | some sel => ∃ ms, selectText false s (renderSet S) = .selected ms ∧ ms.map obs = sel
-    | none => selectText false s (renderSet S) = if S.all fitsItem then .failed .noSuchMessage else .bad := by
+/-- **Rejected sets, whole pipeline, all magnitudes** — for every RFC sequence set `S` (numbers
+    unbounded) for which RFC 3501 demands BAD (a number beyond the count, `*` on an empty mailbox),
+    the command fails: with a parse error when a number does not fit into 32 bits, with
+    ErrNoSuchMessage otherwise. -/
+theorem text_seqset_rejected (s : Snap) (S : SSet) (hS : RFCSet S) (hl : s.length < 4294967296)
+    (hnone : selectSeq s.uids S = none) :
+    selectText false s (renderSet S) = if S.all fitsItem then .failed .noSuchMessage else .bad := by
   have hp := parse_rfc_text S hS
   by_cases hfit : S.all fitsItem = true
   · rw [if_pos hfit] at hp
-    have hr := inParserRange_concSet S hfit
-    have h := seqset_spec s (S.map concItem) hl hr
-    rw [selectSeq_abs s.uids S hS.2] at h
-    cases hsel : selectSeq s.uids S with
-    | some sel =>
-      rw [hsel] at h
-      obtain ⟨ms, hms, hobs⟩ := h
-      exact ⟨ms, selectText_ok hp (by simpa using hms), hobs⟩
-    | none =>
-      rw [hsel] at h
-      simp only [hfit, if_true]
-      exact selectText_err hp (by simpa using h)
+    have h := seqset_spec s (S.map concItem) hl (inParserRange_concSet S hfit)
+    rw [selectSeq_abs s.uids S hS.2, hnone] at h
+    simp only [hfit, if_true]
+    exact selectText_err hp (getMessagesInRange_err (by simpa using h))
   · rw [if_neg hfit] at hp
-    obtain ⟨it, hit, n, hn, hbig⟩ := exists_big_of_not_fits S hfit
-    have hnone := selectSeq_none_of_beyond s.uids S it hit n hn (by rw [uids_length]; omega)
-    rw [hnone]
     simp only [hfit]
     exact selectText_bad hp
+
+/-- **Sequence sets, whole pipeline, all magnitudes** — for every RFC sequence set `S` (numbers
+    unbounded) and every view satisfying the snapshot invariant: if RFC 3501 selects messages
+    (`sel`, listed item by item), the command works on exactly those messages, each once (a
+    message named by several items is selected once — `snapshot.getMessagesInRange`), in the order
+    of their first occurrence; otherwise the command fails (`text_seqset_rejected`). -/
+theorem text_seqset_spec (s : Snap) (inv : Snap.Inv s) (S : SSet) (hS : RFCSet S) (hl : s.length < 4294967296) :
+    match selectSeq s.uids S with
+    | some sel => ∃ ms, selectText false s (renderSet S) = .selected ms ∧ ms.map obs = asSet sel
+    | none => selectText false s (renderSet S) = if S.all fitsItem then .failed .noSuchMessage else .bad := by
+  cases hsel : selectSeq s.uids S with
+  | none => exact text_seqset_rejected s S hS hl hsel
+  | some sel =>
+    have hfit : S.all fitsItem = true := by
+      apply Classical.byContradiction
+      intro hfit
+      obtain ⟨it, hit, n, hn, hbig⟩ := exists_big_of_not_fits S hfit
+      have := selectSeq_none_of_beyond s.uids S it hit n hn (by rw [uids_length]; omega)
+      rw [hsel] at this; cases this
+    have hp := parse_rfc_text S hS
+    rw [if_pos hfit] at hp
+    have h := seqset_spec s (S.map concItem) hl (inParserRange_concSet S hfit)
+    rw [selectSeq_abs s.uids S hS.2, hsel] at h
+    obtain ⟨msgs, hms, hobs⟩ := h
+    obtain ⟨ms, h1, _, _, _, h5⟩ := range_selection false s inv hl (S.map concItem) msgs (by simpa using hms)
+    rw [hobs] at h5
+    exact ⟨ms, selectText_ok hp h1, h5⟩
 
 /-- **Beyond the count is an error — however large** — if an RFC sequence set contains a number
     `n` greater than the number of messages in the view (any `n : Nat`: 2^32+1, 2^64+1, 10^30 …),
@@ -100,9 +118,8 @@ theorem text_seqset_spec (s : Snap) (S : SSet) (hS : RFCSet S) (hl : s.length < 
 theorem beyond_count_is_error (s : Snap) (S : SSet) (hS : RFCSet S) (hl : s.length < 4294967296)
     (it : SItem) (hit : it ∈ S) (n : Nat) (hn : SNum.num n ∈ it.nums) (hbeyond : s.length < n) :
     selectText false s (renderSet S) = .bad ∨ selectText false s (renderSet S) = .failed .noSuchMessage := by
-  have h := text_seqset_spec s S hS hl
-  rw [selectSeq_none_of_beyond s.uids S it hit n hn (by rw [uids_length]; exact hbeyond)] at h
-  simp only [] at h
+  have h := text_seqset_rejected s S hS hl
+    (selectSeq_none_of_beyond s.uids S it hit n hn (by rw [uids_length]; exact hbeyond))
   by_cases hfit : S.all fitsItem = true
   · right; simpa [hfit] using h
   · left; simpa [hfit] using h
@@ -111,9 +128,7 @@ theorem beyond_count_is_error (s : Snap) (S : SSet) (hS : RFCSet S) (hl : s.leng
     is empty"). -/
 theorem star_on_empty_is_error (S : SSet) (hS : RFCSet S) (it : SItem) (hit : it ∈ S) (hstar : SNum.star ∈ it.nums) :
     selectText false [] (renderSet S) = .bad ∨ selectText false [] (renderSet S) = .failed .noSuchMessage := by
-  have h := text_seqset_spec [] S hS (by decide)
   have hnone : selectSeq (Snap.uids []) S = none := by
-    clear h
     induction S with
     | nil => simp at hit
     | cons it' rest ih =>
@@ -134,8 +149,7 @@ theorem star_on_empty_is_error (S : SSet) (hS : RFCSet S) (it : SItem) (hit : it
         simp [this]
       · rw [ih ⟨by intro h; simp [h] at hit, fun x hx => hS.2 x (by simp [hx])⟩ hit]
         cases selectSeqItem (Snap.uids []) it' <;> rfl
-  rw [hnone] at h
-  simp only [] at h
+  have h := text_seqset_rejected [] S hS (by decide) hnone
   by_cases hfit : S.all fitsItem = true
   · right; simpa [hfit] using h
   · left; simpa [hfit] using h
@@ -180,42 +194,48 @@ theorem uidset_spec (s : Snap) (inv : Snap.Inv s) (set : List SeqRange) (hl : s.
     simp only [selectUID, this, if_false, hobs]
 
 /-- **UID sets, whole pipeline, all magnitudes** — for every RFC sequence set (numbers unbounded)
-    used as a UID set: when all numbers fit into 32 bits the command works on exactly the RFC 3501
-    selection of the judged items (see `uidset_spec`); a number of 2^32 or more — which is not an
-    `nz-number` of the grammar — is a parse error (BAD), never some other UID. -/
+    used as a UID set: when all numbers fit into 32 bits the command works on exactly the messages
+    of the RFC 3501 selection of the judged items (see `uidset_spec`), each once; a number of 2^32
+    or more — which is not an `nz-number` of the grammar — is a parse error (BAD), never some other
+    UID. -/
 theorem text_uidset_spec (s : Snap) (inv : Snap.Inv s) (S : SSet) (hS : RFCSet S) (hl : s.length < 4294967296) :
     if S.all fitsItem then
       ∃ ms, selectText true s (renderSet S) = .selected ms ∧
-        ms.map obs = selectUID s.uids (S.filter (fun it => !excludedUIDItem s.uids it))
+        ms.map obs = asSet (selectUID s.uids (S.filter (fun it => !excludedUIDItem s.uids it)))
     else selectText true s (renderSet S) = .bad := by
   have hp := parse_rfc_text S hS
   by_cases hfit : S.all fitsItem = true
   · rw [if_pos hfit] at hp
     simp only [hfit, if_true]
-    obtain ⟨ms, hms, hobs⟩ := uidset_spec s inv (S.map concItem) hl (inParserRange_concSet S hfit)
-    refine ⟨ms, selectText_ok hp (by simpa using hms), ?_⟩
-    rw [hobs]
-    by_cases hv : s.uids = []
-    · simp [selectUID, hv]
-    · simp only [selectUID, hv, if_false]
-      exact selectUID_filter_abs s.uids S hS.2
+    obtain ⟨msgs, hms, hobs⟩ := uidset_spec s inv (S.map concItem) hl (inParserRange_concSet S hfit)
+    obtain ⟨ms, h1, _, _, _, h6⟩ := range_selection true s inv hl (S.map concItem) msgs (by simpa using hms)
+    refine ⟨ms, selectText_ok hp h1, ?_⟩
+    have : selectUID s.uids ((absSet (S.map concItem)).filter (fun it => !excludedUIDItem s.uids it))
+        = selectUID s.uids (S.filter (fun it => !excludedUIDItem s.uids it)) := by
+      by_cases hv : s.uids = []
+      · simp [selectUID, hv]
+      · simp only [selectUID, hv, if_false]
+        exact selectUID_filter_abs s.uids S hS.2
+    rw [hobs, this] at h6
+    exact h6
   · rw [if_neg hfit] at hp
     simp only [hfit]
     exact selectText_bad hp
 
 /-- **No excluded range, no exception** — if the set has no `n:*` with `n` above the highest UID,
-    a UID command works on exactly the RFC 3501 selection. -/
+    a UID command works on exactly the messages of the RFC 3501 selection, each once. -/
 theorem text_uidset_spec_full (s : Snap) (inv : Snap.Inv s) (S : SSet) (hS : RFCSet S) (hl : s.length < 4294967296)
     (hfit : S.all fitsItem = true) (hex : ∀ it ∈ S, excludedUIDItem s.uids it = false) :
-    ∃ ms, selectText true s (renderSet S) = .selected ms ∧ ms.map obs = selectUID s.uids S := by
+    ∃ ms, selectText true s (renderSet S) = .selected ms ∧ ms.map obs = asSet (selectUID s.uids S) := by
   have h := text_uidset_spec s inv S hS hl
   simp only [hfit, if_true] at h
-  obtain ⟨ms, h1, h2⟩ := h
+  obtain ⟨ms, h1, h3⟩ := h
   refine ⟨ms, h1, ?_⟩
   have : S.filter (fun it => !excludedUIDItem s.uids it) = S := by
     apply List.filter_eq_self.mpr
     intro it hit; simp [hex it hit]
-  rw [h2, this]
+  rw [this] at h3
+  exact h3
 
 /-- **The excluded case is what the property says it is** — a UID range `n:*` with `n` above the
     highest UID selects nothing ("the server deliberately returns nothing"). -/
@@ -249,7 +269,7 @@ theorem no_panic (uidMode : Bool) (s : Snap) (inv : Snap.Inv s) (hl : s.length <
     cases uidMode with
     | true =>
       obtain ⟨ms, hms, _⟩ := uidset_spec s inv set hl hr
-      rw [selectText_ok hp (by simpa using hms)]
+      rw [selectText_ok hp (getMessagesInRange_ok (by simpa using hms))]
       intro h; cases h
     | false =>
       have h := seqset_spec s set hl hr
@@ -257,11 +277,11 @@ theorem no_panic (uidMode : Bool) (s : Snap) (inv : Snap.Inv s) (hl : s.length <
       | some sel =>
         rw [hsel] at h
         obtain ⟨ms, hms, _⟩ := h
-        rw [selectText_ok hp (by simpa using hms)]
+        rw [selectText_ok hp (getMessagesInRange_ok (by simpa using hms))]
         intro h; cases h
       | none =>
         rw [hsel] at h
-        rw [selectText_err hp (by simpa using h)]
+        rw [selectText_err hp (getMessagesInRange_err (by simpa using h))]
         intro h; cases h
 
 /-- **UID resolution never fails or panics, even on raw values** — on a snapshot satisfying the
@@ -280,21 +300,42 @@ theorem uid_resolution_total (s : Snap) (inv : Snap.Inv s) (set : List SeqRange)
     report and modify the message the client addressed, never a neighbour.) -/
 theorem selected_messages_sound (s : Snap) (inv : Snap.Inv s) (hl : s.length < 4294967296)
     (set : List SeqRange) (ms : List SeqMsg) :
-    (getMessagesInSeqRange s set = .ok ms ∨ getMessagesInUIDRange s set = .ok ms) →
+    (getMessagesInSeqRange s set = .ok ms ∨ getMessagesInUIDRange s set = .ok ms ∨
+      (∃ uidMode, getMessagesInRange uidMode s set = .ok ms)) →
       ∀ m ∈ ms, 1 ≤ m.seq ∧ s[m.seq - 1]? = some m.msg := by
   intro h
-  rcases h with h | h
-  · rw [getMessagesInSeqRange_eq] at h
-    exact collect_sound s (seqOne s) _ (fun iv _ ms' h' => seqOne_sound s hl iv ms' h') ms h
-  · by_cases hne : s.length = 0
-    · simp only [getMessagesInUIDRange, hne, if_true, Except.ok.injEq] at h
-      subst h; intro m hm; simp at hm
-    · rw [getMessagesInUIDRange_eq s hne] at h
-      refine collect_sound s (uidOne s) _ ?_ ms h
-      intro iv hiv
-      simp only [List.mem_map] at hiv
-      obtain ⟨r, _, rfl⟩ := hiv
-      exact uidOne_sound s inv.asc hl _ (ivOf_le _ r)
+  rcases h with h | h | ⟨uidMode, h⟩
+  · exact seqResolve_sound s hl set ms h
+  · exact uidResolve_sound s inv.asc hl set ms h
+  · cases hu : (if uidMode then getMessagesInUIDRange s set else getMessagesInSeqRange s set) with
+    | error e => rw [getMessagesInRange_err hu] at h; cases h
+    | ok msgs =>
+      rw [getMessagesInRange_ok hu] at h
+      cases h
+      have hs : ∀ m ∈ msgs, SoundAt s m := by
+        cases uidMode with
+        | true => exact uidResolve_sound s inv.asc hl set msgs (by simpa using hu)
+        | false => exact seqResolve_sound s hl set msgs (by simpa using hu)
+      exact fun m hm => hs m ((uniqueById_sublist [] msgs).subset hm)
+
+/-- **A selection is a set** — whatever the resolve functions return (for every list of Go-int
+    pairs), `snapshot.getMessagesInRange` hands FETCH / STORE / COPY / MOVE / UID EXPUNGE the same
+    messages with every message exactly once, in the order of first occurrence (fix 5288904:
+    `COPY 1,1` used to insert the message twice and fail). -/
+theorem selection_is_a_set (uidMode : Bool) (s : Snap) (inv : Snap.Inv s) (hl : s.length < 4294967296)
+    (set : List SeqRange) (msgs : List SeqMsg)
+    (h : (if uidMode then getMessagesInUIDRange s set else getMessagesInSeqRange s set) = .ok msgs) :
+    ∃ ms, getMessagesInRange uidMode s set = .ok ms ∧ (ms.map (·.msg.id)).Nodup ∧ ms.Sublist msgs ∧
+      (∀ m, m ∈ ms ↔ m ∈ msgs) ∧ ms.map obs = asSet (msgs.map obs) := by
+  exact range_selection uidMode s inv hl set msgs h
+
+/-- **`asSet` is the set** — the duplicate-free list the theorems above equate the command's
+    selection with has no repetition, exactly the members of the item-by-item list, in the order
+    of first mention (it is a sublist of it): RFC 3501's set semantics for FETCH, STORE, COPY, MOVE
+    and UID EXPUNGE at full strength. -/
+theorem selection_set_semantics (l : List Sel) :
+    (asSet l).Nodup ∧ (asSet l).Sublist l ∧ ∀ e, e ∈ asSet l ↔ e ∈ l :=
+  asSet_spec l
 
 /-- **The binary search finds the insertion point** — on ascending UIDs the loop of
     `slices.BinarySearchFunc` (as written, with `int(s1.UID) - int(s2.UID)`) returns the number of
@@ -302,6 +343,47 @@ theorem selected_messages_sound (s : Snap) (inv : Snap.Inv s) (hl : s.length < 4
 theorem binary_search_is_lower_bound (s : Snap) (inv : Snap.Inv s) (uid : Nat) :
     (binarySearchByUID s uid).1 = Snap.lowerBound s uid :=
   binarySearch_fst s uid inv.asc
+
+/-! ### which code gets to see a message set (regenerated from the source) -/
+
+/-- **Message sets reach only the modelled functions** — the table of every use of a
+    `[]command.SeqRange` value in internal/session and internal/state (regenerated with go/types on
+    every check, `Generated/Facts/MsgSet.lean`) is exactly this: the session handlers hand
+    `cmd.SeqSet` to `Mailbox.Copy/Move/Store/Expunge` (FETCH hands over the whole command); the
+    Mailbox methods hand it to `snapshot.getMessagesInRange` and nothing else (`Expunge` also tests
+    it for nil: plain EXPUNGE); the two SEARCH keys hand it to `snapshot.resolveSeqInterval` /
+    `resolveUIDInterval`; the snapshot wrappers forward to the `snapMsgList` functions of the Lean
+    model; and only `snapMsgList.resolveSeqInterval` / `resolveUIDInterval` take a set apart
+    (`range`, `len`).  A handler that walks a set itself or a new consumer changes the table and
+    this theorem no longer checks. -/
+theorem message_sets_reach_only_modelled_functions :
+    Facts.msgSetProblems = [] ∧
+    Facts.msgSetUses.map (fun u => (u.fn, u.kind, u.callee, u.arg)) = [
+      ("Session.handleCopy", "arg", "Mailbox.Copy", 1),
+      ("Session.handleMove", "arg", "Mailbox.Move", 1),
+      ("Session.handleStore", "arg", "Mailbox.Store", 1),
+      ("Session.handleUIDExpunge", "arg", "Mailbox.Expunge", 1),
+      ("Mailbox.Copy", "arg", "snapshot.getMessagesInRange", 1),
+      ("Mailbox.Expunge", "arg", "snapshot.getMessagesInRange", 1),
+      ("Mailbox.Expunge", "other", "test:seq != nil", 0),
+      ("Mailbox.Fetch", "arg", "snapshot.getMessagesInRange", 1),
+      ("Mailbox.Move", "arg", "snapshot.getMessagesInRange", 1),
+      ("Mailbox.Store", "arg", "snapshot.getMessagesInRange", 1),
+      ("buildSearchOpSeqSet", "arg", "snapshot.resolveSeqInterval", 0),
+      ("buildSearchOpUID", "arg", "snapshot.resolveUIDInterval", 0),
+      ("snapMsgList.getMessagesInSeqRange", "arg", "snapMsgList.resolveSeqInterval", 0),
+      ("snapMsgList.getMessagesInUIDRange", "arg", "snapMsgList.resolveUIDInterval", 0),
+      ("snapMsgList.resolveSeqInterval", "other", "*ast.RangeStmt", 0),
+      ("snapMsgList.resolveSeqInterval", "arg", "builtin.len", 0),
+      ("snapMsgList.resolveUIDInterval", "other", "*ast.RangeStmt", 0),
+      ("snapMsgList.resolveUIDInterval", "arg", "builtin.len", 0),
+      ("snapshot.getMessagesInRange", "arg", "snapshot.getMessagesInSeqRange", 0),
+      ("snapshot.getMessagesInRange", "arg", "snapshot.getMessagesInUIDRange", 0),
+      ("snapshot.getMessagesInSeqRange", "arg", "snapMsgList.getMessagesInSeqRange", 0),
+      ("snapshot.getMessagesInUIDRange", "arg", "snapMsgList.getMessagesInUIDRange", 0),
+      ("snapshot.resolveSeqInterval", "arg", "snapMsgList.resolveSeqInterval", 0),
+      ("snapshot.resolveUIDInterval", "arg", "snapMsgList.resolveUIDInterval", 0)] := by
+  decide
 
 /-! ### SEARCH with a message-set key -/
 
@@ -367,13 +449,18 @@ theorem search_uidset_partial (s : Snap) (inv : Snap.Inv s) (set : List SeqRange
   · rintro ⟨h1, h2⟩
     exact ⟨h1, (uid_cover s inv.asc hl set hr m h1).mpr h2⟩
 
-/-- **Overlapping items select a message once per item** — `1,1` (or `1:3,2`, `*,1:*`) makes
-    `getMessagesInSeqRange` return the same message twice: the result is the list `selectSeq`
-    describes, not a duplicate-free set.  FETCH answers twice, STORE is idempotent; COPY and MOVE
-    insert the message twice and fail with NO (finding F1, replayed by the oracle `c16wire`:
-    `case COPY 2 1,1`). -/
+/-- **Overlapping items, raw resolve function** — `1,1` (or `1:3,2`, `*,1:*`) makes
+    `snapMsgList.getMessagesInSeqRange` return the same message twice (the item-by-item list
+    `selectSeq` describes). -/
 theorem overlapping_items_select_twice :
     getMessagesInSeqRange [Snap.mkMsg 1 3 []] [⟨1, 1⟩, ⟨1, 1⟩] = .ok [⟨1, Snap.mkMsg 1 3 []⟩, ⟨1, Snap.mkMsg 1 3 []⟩] := by
+  rfl
+
+/-- **Overlapping items, what the command sees** — `snapshot.getMessagesInRange` removes the
+    repetition (fix 5288904; before it COPY and MOVE inserted the message twice and failed with NO —
+    finding F1, wire reproducer `case COPY 2 1,1`). -/
+theorem overlapping_items_selected_once :
+    getMessagesInRange false [Snap.mkMsg 1 3 []] [⟨1, 1⟩, ⟨1, 1⟩] = .ok [⟨1, Snap.mkMsg 1 3 []⟩] := by
   rfl
 
 /-! ### the raw resolve functions outside the parser's range (history of defect #1) -/
@@ -417,6 +504,10 @@ example : selectText false view3 "2:*,1".toList
 example : renderSet [.range (.num 2) .star, .one (.num 1)] = "2:*,1".toList := by decide +kernel
 
 example : selectSeq view3.uids [.range (.num 2) .star, .one (.num 1)] = some [(2, 5), (3, 9), (1, 3)] := by decide
+
+/-- FETCH 1:3,2,* on view3: overlapping items, every message once -/
+example : selectText false view3 "1:3,2,*".toList
+    = .selected [⟨1, Snap.mkMsg 1 3 []⟩, ⟨2, Snap.mkMsg 2 5 []⟩, ⟨3, Snap.mkMsg 3 9 []⟩] := by decide +kernel
 
 /-- FETCH 4 on view3: beyond the count, the hypothesis of `beyond_count_is_error` is satisfiable and
     the outcome is the ErrNoSuchMessage branch -/
